@@ -232,3 +232,20 @@ def recording(gen_obj, judge, where):
             finally:
                 COL.depth -= 1
     return proxy()
+
+
+def stored_list_in_scope(ctx, stored, unordered, cap):
+    """Lattice._fromlist input is in scope iff raw/unordered is set or the stored list is
+    the documented canonical encoding (shortlex concepts, shortlex upper, longlex lower)."""
+    if unordered:
+        return True
+    from ..shadow import bits
+    sh = attach.shadow_of(ctx)
+    sl = sh.lattice(cap)
+    try:
+        got = [(tuple(e), tuple(i), tuple(u), tuple(l)) for e, i, u, l in stored]
+    except Exception:
+        return False
+    want = [(bits(sl.extents[k]), bits(sl.intents[k]), tuple(sl.upper(k)), tuple(sl.lower(k)))
+            for k in range(sl.n)]
+    return got == want
